@@ -151,6 +151,22 @@ func (c *channel) enqueue(req request, responseChan chan<- response, streaming b
 	// with error if the node is closed
 	select {
 	case <-c.parentCtx.Done():
+		// don't queue anything once the node is closed (the sendQ may have room)
+		c.routeResponse(req.msg.Metadata.MessageID, response{nid: c.node.ID(), err: fmt.Errorf("channel closed")})
+		return
+	default:
+	}
+	defer func() {
+		// The node may have been closed after the check above, in which case the
+		// sender may already have stopped and will not process a buffered request.
+		select {
+		case <-c.parentCtx.Done():
+			c.drainSendQ()
+		default:
+		}
+	}()
+	select {
+	case <-c.parentCtx.Done():
 		c.routeResponse(req.msg.Metadata.MessageID, response{nid: c.node.ID(), err: fmt.Errorf("channel closed")})
 		return
 	case <-req.ctx.Done():
@@ -158,6 +174,18 @@ func (c *channel) enqueue(req request, responseChan chan<- response, streaming b
 		c.routeResponse(req.msg.Metadata.MessageID, response{nid: c.node.ID(), err: req.ctx.Err()})
 		return
 	case c.sendQ <- req:
+	}
+}
+
+// drainSendQ responds with an error to all requests left in the sendQ of a closed node.
+func (c *channel) drainSendQ() {
+	for {
+		select {
+		case req := <-c.sendQ:
+			c.routeResponse(req.msg.Metadata.MessageID, response{nid: c.node.ID(), err: fmt.Errorf("channel closed")})
+		default:
+			return
+		}
 	}
 }
 
@@ -239,6 +267,7 @@ func (c *channel) sender() {
 	for {
 		select {
 		case <-c.parentCtx.Done():
+			c.drainSendQ()
 			return
 		case req = <-c.sendQ:
 		}
